@@ -14,10 +14,10 @@ from mc.checks import rules_common as R
 
 PROPERTY = "C02"
 LEVEL = "exploration"
-RULE = ("cases = every ordered sequence of 1..K distinct blocks (K=3 quick, 4 thorough) over 15 .rules blocks "
+RULE = ("cases = every ordered sequence of 1..K distinct blocks (K=3 quick, 4 thorough) over 19 .rules blocks "
         "(6 categorising with static / mixed-case / {field.x} / {source} / {extract()} tags, 7 tag-only incl. one sharing its match text with a categorising rule at low priority, one with case-significant dynamic tag expressions, one more specific than "
-        "every categorising rule, one with an unevaluable {field.nope} and an empty {} tag) x 2 rule modes, plus every sequence of 1..K "
-        "rows over 6 legacy CSV rows with a|B tags; each file on 96 transactions via engine.match and normalize_merchant. "
+        "every categorising rule, one with an unevaluable {field.nope} and an empty {} tag; transfer / investment tags from separate rules; a := binder and a dynamic tag reading that name) x 2 rule modes, plus every sequence of 1..K "
+        "rows over 7 legacy CSV rows with a|B and dynamic tags; each file on 120 transactions via engine.match, normalize_merchant and (tags read back) analyze_transactions. "
         "non-trivial = file where some transaction is matched by >=2 tag-bearing rules or by a tag-only rule; files distinct by construction")
 ASSUMPTIONS = ["truth of a .rules condition comes from the real evaluator on the one-rule file (C04 judges meaning)",
                "value of a {expression} tag is taken from evaluate_transaction on that expression alone; dropped when falsy, blank or an expression error",
